@@ -28,7 +28,8 @@ def gen(rng, tid, cache):
               "polls": rng.randrange(40, 120), "count": rng.choice([1, 4, 10, 50]), "bg": [b for b in ("flush", "save", "evict") if rng.random() < 0.7],
               "seed": rng.randrange(1, 1 << 30), "chase": rng.random() < 0.6}
     ops = [{"op": "create_stream", "name": "s1", "id": 1}, {"op": "create_topic", "stream": 1, "name": "t1", "parts": 1, "id": 1}, stress,
-           {"op": "poll", "stream": 1, "topic": 1, "partition": 1, "kind": "offset", "value": 0, "count": 1000000}]
+           # the final read: under no-wait confirmation it waits (bounded) until the background writer has caught up
+           {"op": "poll_settle" if nowait else "poll", "stream": 1, "topic": 1, "partition": 1, "kind": "offset", "value": 0, "count": 1000000}]
     return {"id": tid, "cfg": cfg, "ops": ops}
 
 
